@@ -31,7 +31,7 @@ ANCHORS = [
     "acnportal.acnsim.network.charging_network:ChargingNetwork.is_feasible",
 ]
 REQUIRED = ["accepted_schedules_judged", "boundary_points", "vertex_points", "structure_walks", "site:caltech", "site:caltech-via-deprecated-alias", "site:jpl", "site:office001",
-            "evse:basic", "evse:real", "cap:default", "cap:scaled", "cap:zero", "sim_columns_judged", "linear_mode_points", "multi_period_matrices", "multi_period_accepted", "long_plans_with_one_overloading_column", "transformer_power_within_1pct_of_rating",
+            "evse:basic", "evse:real", "cap:default", "cap:scaled", "cap:zero", "sim_columns_judged", "linear_mode_points", "multi_period_matrices", "multi_period_accepted", "long_plans_with_one_overloading_column", "networks_printed_compared_hashed_before_use", "transformer_power_within_1pct_of_rating",
             "panel_or_pod_binding"]
 BUDGET_S = {"quick": 240, "thorough": 3000}
 VLL = 120.0 * math.sqrt(3.0)
@@ -190,6 +190,20 @@ def run_case(case, obs):
     net = build_site(site, basic, caps, alias=alias)
     if alias:
         obs.ev("site:caltech-via-deprecated-alias")
+    if case["seed"] % 3 == 0:
+        # the client prints the network, compares it with itself, with a second build and with a JSON copy, hashes it ...
+        # before asking anything: none of that may change what the network admits
+        import warnings as _w
+        from vlib.monitors import poke
+        from acnportal.acnsim.network import ChargingNetwork
+        with _w.catch_warnings():
+            _w.simplefilter("ignore")
+            try:
+                twin = ChargingNetwork.from_json(net.to_json())
+            except Exception:
+                twin = None
+            poke(net, *([twin] if twin is not None else []), build_site(site, basic, caps))
+        obs.ev("networks_printed_compared_hashed_before_use")
     ids = list(net.station_ids)
     n = len(ids)
     ang = [float(net.phase_angles[x]) for x in ids]
